@@ -83,6 +83,7 @@ def lifecycle_clauses(case, d):
 
 class C01(S.SchedCheck):
     pid = "C01"
+    ways = True
     props_mod = "HioModel.Props.C01"
     design_ref = "DESIGN.md §5 C01, Appendix A.1"
     technique = ("Lean 4 theorems over an executable model of Doist/DoDoer/Doer (nested generator scheduler, deque+marker as zipper), "
